@@ -7,6 +7,7 @@ package main
 // from the JSON body.  Judged by spec/Trace_HttpMap.tla.
 
 import (
+	"io/ioutil"
 	"bytes"
 	"context"
 	"encoding/json"
@@ -18,6 +19,7 @@ import (
 	"strings"
 
 	"github.com/cloudwego/dynamicgo/conv"
+	"github.com/cloudwego/dynamicgo/meta"
 	"github.com/cloudwego/dynamicgo/conv/j2t"
 	"github.com/cloudwego/dynamicgo/conv/t2j"
 	dhttp "github.com/cloudwego/dynamicgo/http"
@@ -48,6 +50,7 @@ type c17 struct {
 	out   *Out
 	cases int
 	descs map[string]*thrift.TypeDescriptor
+	fns   map[string]*thrift.FunctionDescriptor // by the descriptor they belong to
 }
 
 func hmText(ty string, src string) string {
@@ -81,6 +84,10 @@ func (c *c17) desc(hc HMCase) *thrift.TypeDescriptor {
 	fn, _ := svc.LookupFunctionByMethod("M")
 	d := fn.Request().Struct().FieldById(1).Type()
 	c.descs[idl] = d
+	if c.fns == nil {
+		c.fns = map[string]*thrift.FunctionDescriptor{}
+	}
+	c.fns[fmt.Sprintf("%p", d)] = fn
 	return d
 }
 
@@ -169,6 +176,29 @@ func (c *c17) run(hc HMCase) {
 			src = bodyBytes
 		}
 		out, err := cv.Do(ctx, desc, src)
+		// the same request through the HTTP converter, which wraps the struct into a CALL message for method M (field 1):
+		// header + what the plain converter produces + footer; DoInto appends the same behind what the buffer holds
+		if fn := c.fns[fmt.Sprintf("%p", desc)]; fn != nil {
+			env := map[string]interface{}{"inner": B(out), "innerst": st(err), "wrapped": B{}, "st": "skipped", "winto": B{}, "stinto": "skipped"}
+			ev["env"] = env
+			func() {
+				defer func() {
+					if e := recover(); e != nil {
+						env["st"] = "panic:" + fmt.Sprint(e)
+					}
+				}()
+				opts := conv.Options{ReadHttpValueFallback: hc.O.Fallback, WriteRequireField: hc.O.Wreq, WriteDefaultField: hc.O.Wdef, WriteOptionalField: hc.O.Wopt}
+				hcv := j2t.NewHTTPConv(meta.EncodingThriftBinary, fn)
+				w, e1 := hcv.Do(context.Background(), req, opts)
+				env["st"], env["wrapped"] = st(e1), B(w)
+				buf := append(make([]byte, 0, 8), 1, 2, 3)
+				e2 := hcv.DoInto(context.Background(), req, &buf, opts)
+				env["stinto"] = st(e2)
+				if e2 == nil {
+					env["winto"] = B(buf)
+				}
+			}()
+		}
 		if err != nil {
 			ev["st"] = "err"
 			ev["note"] = err.Error()
@@ -553,6 +583,43 @@ func (c *c17) response(kind string, ty string) {
 		case "code":
 			ev["delivered"] = resp.Response.StatusCode == 204
 		}
+		// the same reply through the HTTP converter, which takes the whole message: REPLY / EXCEPTION / CALL envelopes with the
+		// declared result field (0) or another one, complete or cut inside the header
+		var envs []map[string]interface{}
+		for _, mt := range []int{1, 2, 3} {
+			for _, sid := range []int{0, 1, 5} {
+				for _, cut := range []bool{false, true} {
+					msg := append([]byte{0x80, 1, 0, byte(mt), 0, 0, 0, 1, 'M', 0, 0, 0, 9, 12, byte(sid >> 8), byte(sid)}, doc...)
+					msg = append(msg, 0)
+					if cut {
+						msg = msg[:11]
+					}
+					e := map[string]interface{}{"mt": mt, "sid": sid, "cut": cut, "st": "skipped", "body": B{}, "hdr": "", "code": 0}
+					func() {
+						defer func() {
+							if x := recover(); x != nil {
+								e["st"] = "panic:" + fmt.Sprint(x)
+							}
+						}()
+						r2 := dhttp.NewHTTPResponse()
+						hcv := t2j.NewHTTPConv(meta.EncodingThriftBinary, fn)
+						err := hcv.Do(context.Background(), r2, msg, conv.Options{})
+						e["st"] = st(err)
+						if err == nil && r2.Response.Body != nil {
+							b, _ := ioutil.ReadAll(r2.Response.Body)
+							e["body"] = B(b)
+						}
+						e["hdr"] = r2.Response.Header.Get("x-val") + "|" + r2.Response.Header.Get("Set-Cookie")
+						e["code"] = r2.Response.StatusCode
+					}()
+					envs = append(envs, e)
+				}
+			}
+		}
+		ev["envs"] = envs
+		ev["inner"] = B(out)
+		ev["ihdr"] = resp.Response.Header.Get("x-val") + "|" + resp.Response.Header.Get("Set-Cookie")
+		ev["icode"] = resp.Response.StatusCode
 	}()
 	c.out.Emit(ev)
 }
